@@ -66,6 +66,10 @@ class Monitor:
             for f in kinds(self.version, n):
                 if f[2] != 0 or f[1] != 255:
                     self._alpha.append(["line-fail", f])
+        # a slow link: the first transport write of the step takes 30 (virtual) seconds
+        for n in self.nodes[:1]:
+            for f in kinds(self.version, n)[2:5]:
+                self._alpha.append(["line-slow", f])
         # traffic of the gateway itself (same version: the rules in force do not change)
         self._alpha.append(["line", [0, 255, 3, 0, 2, self.version]])
         self._alpha.append(["line", [0, 255, 0, 0, 18, self.version]])
@@ -121,7 +125,10 @@ class Monitor:
             # the first node's faults are TransportFailedError, the others' a plain TransportError (the contract)
             s.transport.fault_class = FAULT_CLASSES["failed" if n == self.nodes[0] else "plain"]
             s.transport.fail_writes = 1
+        if kind == "line-slow":
+            s.transport.slow_writes = 1
         out = s.line(R.enc(*f).rstrip("\n"))
+        s.transport.slow_writes = 0
         s.transport.fail_writes = 0
         self.last_desc = out.describe()
         att19 = [(l, ok) for l, ok in out.attempts if is_req19(l)]
@@ -198,7 +205,7 @@ def run(ctx: core.Ctx) -> core.Report:
         "traces_validated_against_impl": res["transitions"],
         "exhaustive": res["closed"],
         "distinct_nontrivial_transitions": res["nontrivial_transitions"],
-        "rule": "BFS to a fixed point; every transition one real listen() step with or without an injected write fault; non-trivial = the step refers to a missing node/child",
+        "rule": "BFS to a fixed point; every transition one real listen() step with or without an injected write fault or a write that takes 30 virtual seconds; non-trivial = the step refers to a missing node/child",
         "bounds": {"depth": "fixed point" if res["closed"] else "not closed", "per_cfg": res["per_cfg"]},
         "samples": ctx.pick(res["samples"], 3),
     }
